@@ -10,8 +10,12 @@ B  every terminal state of that run is emitted by TLC; the sequence is serialise
 C  mutation corpus (single-byte substitutions, truncations, TLV-structural edits of valid packets) and random
    strings, classified by the strict reader, decoded, and judged by TLC (TlvModelC07Judge).
    Linear time: interpreter line events in tlv_model.py / Name.py / tlv_var.py on inputs scaled 1x 2x 4x 8x.
+Histories: the reference starts every packet from InitSt, so a decoder's answer is a function of the bytes alone. B and C
+   are therefore repeated in FRESH interpreters that meet the inputs in other orders (adverse = everything irregular
+   first and the well-formed packets last, reversed, seeded shuffles; all decoders interleaved): B answers are compared
+   with TLC's expectations, C answers judged by TlvModelC07Judge (hist field); signatures C07/<fn>/history:<order>/...
 """
-import json, os, sys
+import json, os, sys, zlib
 
 from harness import tlc, tlvkit as kit, strict_tlv as stl, tlaval
 
@@ -247,73 +251,217 @@ def run_machine(ctx, tag, maxlen, lvl, pks, workers):
     return table, seqs
 
 
-def replay_sequences(ctx, table, seqs, seen):
+def build_case(table, item):
+    """one TLC-emitted terminal state -> the bytes given to the decoder and what TLC expects back"""
+    pk, w, verdict, why, taken, eptr = item
+    T = table[pk]
+    schema, letters = T['schema'], T['letters']
+    elems = [letters[i - 1] for i in w]
+    fr = T['frame']
+    seq_pk = pk
+    if fr['parent']:
+        # nested level: the sequence is the content of a container inside a fixed frame of the parent packet
+        full = fr['pre'] + [kit.node(kit.unlimbs(fr['t']), elems)] + fr['post']
+        pk, dschema = fr['parent'], fr['pschema']
+    else:
+        full, dschema = elems, schema
+    wire = packet_wire(kit.unlimbs(T['outer']), kit.wire_of(full))
+    # trusted-base cross-check: the strict reader projects the strict writer's output onto the same elements
+    oc, tree = classify(pk, wire, dschema, kit.unlimbs(T['outer']))
+    if oc != 'ok' or tree != full:
+        raise tlc.MachineryError('strict reader/writer disagree on %s %s: %s' % (seq_pk, w, oc))
+    exp = None
+    if verdict == 'accept' or why == 'lp-fragmentation-unsupported':
+        if pk == 'name':
+            exp = [T['values'][i - 1]['fv'] for i in w]
+            exp = [{'t': c['t'], 'runs': c['runs']} for c in exp]
+        else:
+            exp = [({'k': 'list', 'items': []} if d['kind'] == 'repeated' else kit.NONE) for d in schema]
+            for i, p in taken:
+                fv = T['values'][w[p - 1] - 1]['fv']
+                if schema[i - 1]['kind'] == 'repeated':
+                    exp[i - 1]['items'].append(fv)
+                else:
+                    exp[i - 1] = fv
+            if fr['parent']:
+                pexp = json.loads(json.dumps(fr['pout']))
+                pexp[fr['field'] - 1] = {'k': 'model', 'v': exp}
+                exp = pexp
+            exp = norm_expected(pk, exp)
+    return {'pk': pk, 'seq_pk': seq_pk, 'w': w, 'wire': wire, 'dschema': dschema, 'schema': schema, 'verdict': verdict, 'why': why,
+            'exp': exp, 'eptr': eptr, 'nested': bool(fr['parent']),
+            # TLC's own account of the sequence: rejected, or an element it did not take (unknown, repeated, out of order)
+            'irregular': verdict != 'accept' or len(taken) < len(w)}
+
+
+def judge_case(ctx, c, got, out, ptr, hist=''):
+    """decoder result against TLC's expectation; hist = the order the decoder met its inputs in ('' = canonical)"""
+    pk, wire, verdict, why = c['pk'], c['wire'], c['verdict'], c['why']
+    h = 'history:%s/' % hist if hist else ''
+    after = ' [decoded in a fresh interpreter, inputs in the order "%s"]' % hist if hist else ''
+    rep = {'kind': 'wire', 'pk': pk, 'wire': wire.hex(), 'letters': c['w'], 'level': c['seq_pk']}
+    if hist:
+        rep['history'] = hist
+    if got != verdict:
+        ctx.violation('C07/%s/%s%s%s/%s' % (FN[pk], h, verdict, ':' + why if why else '', got),
+                      '%s(%s): reference %s%s, implementation %s%s' % (FN[pk], wire.hex(), verdict, ' (%s)' % why if why else '', got, after), rep)
+    elif verdict == 'accept' and out != c['exp']:
+        ctx.violation('C07/%s/%saccept/fields-differ' % (FN[pk], h), '%s(%s): extracted fields differ from the strict reading%s' % (FN[pk], wire.hex(), after), rep)
+    elif verdict == 'accept' and not c['nested'] and not ptrs_ok(c['eptr'], ptr):
+        ctx.violation('C07/%s/%saccept/pointers-differ' % (FN[pk], h),
+                      '%s(%s): SignaturePtrs %s differ from the strict reading %s%s' % (FN[pk], wire.hex(), json.dumps(ptr), json.dumps(c['eptr']), after), rep)
+    else:
+        return rep
+    return None
+
+
+def judge_side(ctx, c, side, g, o, hist=''):
+    h = 'history:%s/' % hist if hist else ''
+    wire, why = c['wire'], c['why']
+    rep = {'kind': 'wire', 'pk': side, 'wire': wire.hex(), 'letters': c['w'], 'level': c['seq_pk']}
+    if hist:
+        rep['history'] = hist
+    ev, eo = lp_side_expect(side, c['verdict'], why, c['exp'])
+    if g != ev:
+        ctx.violation('C07/%s/%s%s%s/%s' % (FN[side], h, ev, ':' + why if why and ev == 'reject' else '', g),
+                      '%s(%s): reference %s, implementation %s' % (FN[side], wire.hex(), ev, g), rep)
+    elif ev == 'accept' and o != eo:
+        ctx.violation('C07/%s/%saccept/fields-differ' % (FN[side], h),
+                      '%s(%s): (NackReason, Fragment) differ from the strict reading' % (FN[side], wire.hex()), rep)
+
+
+def replay_sequences(ctx, table, seqs, seen, keep, cases):
+    """every new sequence is decoded in this interpreter (the canonical order) and compared; those keep() selects are
+    retained, with the observation made here, for the histories"""
     n = 0
-    for pk, w, verdict, why, taken, eptr in seqs:
-        key = (pk, tuple(w), len(table[pk]['letters']))
+    for item in seqs:
+        key = (item[0], tuple(item[1]), len(table[item[0]]['letters']))
         if key in seen:
             continue
         seen.add(key)
-        T = table[pk]
-        schema, letters = T['schema'], T['letters']
-        elems = [letters[i - 1] for i in w]
-        fr = T['frame']
-        seq_pk = pk
-        if fr['parent']:
-            # nested level: the sequence is the content of a container inside a fixed frame of the parent packet
-            full = fr['pre'] + [kit.node(kit.unlimbs(fr['t']), elems)] + fr['post']
-            pk, dschema = fr['parent'], fr['pschema']
-        else:
-            full, dschema = elems, schema
-        wire = packet_wire(kit.unlimbs(T['outer']), kit.wire_of(full))
-        # trusted-base cross-check: the strict reader projects the strict writer's output onto the same elements
-        oc, tree = classify(pk, wire, dschema, kit.unlimbs(T['outer']))
-        if oc != 'ok' or tree != full:
-            raise tlc.MachineryError('strict reader/writer disagree on %s %s: %s' % (seq_pk, w, oc))
+        c = build_case(table, item)
+        pk, wire, dschema = c['pk'], c['wire'], c['dschema']
         got, out, ptr = decode(pk, wire, dschema)
+        c['canon'] = {None: (got, out, ptr)}            # the observation in the canonical order (see history_replay_collect)
         n += 1
-        exp = None
-        if verdict == 'accept' or why == 'lp-fragmentation-unsupported':
-            if pk == 'name':
-                exp = [T['values'][i - 1]['fv'] for i in w]
-                exp = [{'t': c['t'], 'runs': c['runs']} for c in exp]
-            else:
-                exp = [({'k': 'list', 'items': []} if d['kind'] == 'repeated' else kit.NONE) for d in schema]
-                for i, p in taken:
-                    fv = T['values'][w[p - 1] - 1]['fv']
-                    if schema[i - 1]['kind'] == 'repeated':
-                        exp[i - 1]['items'].append(fv)
-                    else:
-                        exp[i - 1] = fv
-                if fr['parent']:
-                    pexp = json.loads(json.dumps(fr['pout']))
-                    pexp[fr['field'] - 1] = {'k': 'model', 'v': exp}
-                    exp = pexp
-                exp = norm_expected(pk, exp)
-        rep = {'kind': 'wire', 'pk': pk, 'wire': wire.hex(), 'letters': w, 'level': seq_pk}
-        if got != verdict:
-            ctx.violation('C07/%s/%s%s/%s' % (FN[pk], verdict, ':' + why if why else '', got),
-                          '%s(%s): reference %s%s, implementation %s' % (FN[pk], wire.hex(), verdict, ' (%s)' % why if why else '', got), rep)
-        elif verdict == 'accept' and out != exp:
-            ctx.violation('C07/%s/accept/fields-differ' % FN[pk], '%s(%s): extracted fields differ from the strict reading' % (FN[pk], wire.hex()), rep)
-        elif verdict == 'accept' and not fr['parent'] and not ptrs_ok(eptr, ptr):
-            ctx.violation('C07/%s/accept/pointers-differ' % FN[pk],
-                          '%s(%s): SignaturePtrs %s differ from the strict reading %s' % (FN[pk], wire.hex(), json.dumps(ptr), json.dumps(eptr)), rep)
-        else:
+        rep = judge_case(ctx, c, got, out, ptr)
+        if rep is not None:
             check_variant(ctx, n, pk, wire, dschema, got, out, rep)
-        if seq_pk == 'lp':
+        if c['seq_pk'] == 'lp':
             for side in ('lp.legacy', 'lp.nack'):
-                ev, eo = lp_side_expect(side, verdict, why, exp)
-                g, o, _ = decode(side, wire, schema)
+                g, o, p = decode(side, wire, c['schema'])
+                c['canon'][side] = (g, o, p)
                 n += 1
-                if g != ev:
-                    ctx.violation('C07/%s/%s%s/%s' % (FN[side], ev, ':' + why if why and ev == 'reject' else '', g),
-                                  '%s(%s): reference %s, implementation %s' % (FN[side], wire.hex(), ev, g), dict(rep, pk=side))
-                elif ev == 'accept' and o != eo:
-                    ctx.violation('C07/%s/accept/fields-differ' % FN[side],
-                                  '%s(%s): (NackReason, Fragment) differ from the strict reading' % (FN[side], wire.hex()), dict(rep, pk=side))
-        if len(w) >= 3 or why:
-            ctx.nt(['B', seq_pk, w])
+                judge_side(ctx, c, side, g, o)
+        if len(c['w']) >= 3 or c['why']:
+            ctx.nt(['B', c['seq_pk'], c['w']])
+        if keep(c):
+            cases.append(c)
+    return n
+
+
+# ------------------------------------------------------------------ histories: the decoder is a function of the bytes alone
+
+def history_orders(rng, items, irregular, n_shuffled):
+    """Orders in which one fresh interpreter meets its inputs (indices into items). The reference machine starts every
+    packet from InitSt - nothing survives a packet - so every order must give the verdicts of the canonical one.
+      adverse   everything TLC calls irregular (rejected, or holding an element the machine did not take: unknown,
+                repeated, out of order) first, longest first; the regular packets only afterwards
+      reversed  the canonical order backwards
+      shuffled  seeded permutations (decoders and packet kinds interleaved)"""
+    idx = list(range(len(items)))
+    adverse = sorted(idx, key=lambda i: (not irregular[i], -len(items[i][1]), i))
+    out = [('adverse', adverse), ('reversed', idx[::-1])]
+    for _ in range(n_shuffled):
+        p = list(idx)
+        rng.shuffle(p)
+        out.append(('shuffled', p))
+    return out
+
+
+def history_start(name, k, items, schemas, order):
+    """start a FRESH interpreter (fresh model classes: whatever the decoders remember starts empty) that decodes
+    items = [(decoder, wire, schema index)] in the given order; returns a handle for history_collect"""
+    import subprocess
+    job, outp = kit.scratch('c07-hist-%s-%d.job.json' % (name, k)), kit.scratch('c07-hist-%s-%d.out.json' % (name, k))
+    with open(job, 'w') as f:
+        json.dump({'schemas': schemas, 'items': [[items[i][0], items[i][1].hex(), items[i][2]] for i in order]}, f, separators=(',', ':'))
+    p = subprocess.Popen([sys.executable, '-m', 'harness.props.c07', '--history-child', job, outp],
+                         stdout=subprocess.PIPE, stderr=subprocess.STDOUT, text=True, cwd=tlc.VERIF)
+    return p, outp, order
+
+
+def history_collect(handle, timeout=1800):
+    """-> {item index: (got, out, ptr)}"""
+    import subprocess
+    p, outp, order = handle
+    try:
+        txt, _ = p.communicate(timeout=timeout)
+    except subprocess.TimeoutExpired:
+        p.kill()
+        raise tlc.MachineryError('history interpreter timed out')
+    if p.returncode != 0 or not os.path.exists(outp):
+        raise tlc.MachineryError('history interpreter failed (%s): %s' % (p.returncode, (txt or '')[-1500:]))
+    with open(outp) as f:
+        res = json.load(f)
+    if len(res) != len(order):
+        raise tlc.MachineryError('history interpreter returned %d of %d results' % (len(res), len(order)))
+    return {i: tuple(r) for i, r in zip(order, res)}
+
+
+def history_child(job, outp):
+    with open(job) as f:
+        J = json.load(f)
+    res = [decode(pk, bytes.fromhex(hx), J['schemas'][k]) for pk, hx, k in J['items']]
+    with open(outp + '.tmp', 'w') as f:
+        json.dump(res, f, separators=(',', ':'))
+    os.replace(outp + '.tmp', outp)
+
+
+def history_replay_start(ctx, cases):
+    """stage B under histories: the seeded sample (history_keep) of the TLC-enumerated sequences (all packet kinds and nested levels
+    mixed, the two sibling LP decoders included), decoded in fresh interpreters in each order of history_orders."""
+    rng = ctx.rng
+    cases = sorted(cases, key=lambda c: (c['seq_pk'], len(c['w']), c['w']))       # TLC's print order is not deterministic
+    nshuf = ctx.pick(1, 4)
+    schemas, skey, items, owner, irregular = [], {}, [], [], []
+
+    def sk(schema):
+        key = json.dumps(schema, sort_keys=True)
+        if key not in skey:
+            skey[key] = len(schemas)
+            schemas.append(schema)
+        return skey[key]
+    for c in cases:
+        for side in ((None, 'lp.legacy', 'lp.nack') if c['seq_pk'] == 'lp' else (None,)):
+            items.append((side or c['pk'], c['wire'], sk(c['schema'] if side else c['dschema'])))
+            owner.append((c, side))
+            irregular.append(c['irregular'])
+    orders = history_orders(rng, items, irregular, nshuf)
+    if ctx.quick:
+        orders = [o for o in orders if o[0] != 'reversed']
+    return owner, [(name, history_start('b-' + name, k, items, schemas, order)) for k, (name, order) in enumerate(orders)]
+
+
+def history_replay_collect(ctx, started):
+    owner, handles = started
+    n = nd = 0
+    for name, h in handles:
+        for i, (got, out, ptr) in sorted(history_collect(h).items()):
+            c, side = owner[i]
+            n += 1
+            # an observation identical to the one made in the canonical order has been compared with TLC's expectation
+            # there (and reported under the plain signature if it differs): only an answer that DEPENDS ON THE ORDER
+            # is judged again, under a history signature
+            if json.loads(json.dumps(c['canon'][side])) == [got, out, ptr]:
+                continue
+            nd += 1
+            if side:
+                judge_side(ctx, c, side, got, out, name)
+            else:
+                judge_case(ctx, c, got, out, ptr, name)
+    ctx.note('B histories: %d sequences x %d orders (%s) decoded in fresh interpreters: %d decodings, %d answers differ from the one '
+             'given in the canonical order' % (len({id(c) for c, _ in owner}), len(handles), ', '.join(nm for nm, _ in handles), n, nd))
     return n
 
 
@@ -663,6 +811,70 @@ def scaling_cpu(ctx):
     ctx.note('scaling (CPU time / memory peak): ' + '; '.join(rows))
 
 
+def disorder(tree, schema):
+    """how many recognised elements of the projected tree (all levels) come twice or before an element they should follow.
+    Only used to ORDER a history (such inputs first); what a decoder has to answer is decided by the reference."""
+    pos = {kit.unlimbs(d['t']): i for i, d in enumerate(schema)}
+    subs = {kit.unlimbs(d['t']): d['sub'] for d in schema if d['kind'] == 'model'}
+    n, last = 0, -1
+    for e in tree:
+        t = kit.unlimbs(e['t']) if e['t'] else None
+        if t in pos:
+            if pos[t] < last or (pos[t] == last and schema[last]['kind'] not in ('repeated', 'map')):
+                n += 1
+            last = max(last, pos[t])
+        if t in subs and not e['leaf']:
+            n += disorder(e['kids'], subs[t])
+    return n
+
+
+def history_corpus(ctx, recs, table):
+    """stage C under a history: a seeded sample of the mutants the strict reader can look into (outer header valid:
+    duplicated / transposed / deleted / unknown elements at every level, overruns, substitutions) is decoded FIRST by a
+    fresh interpreter, then every unmutated corpus packet. An observation that differs from the one made in the canonical
+    order is appended to recs (hist = "adverse") and judged by TLC like all the others (TlvModelC07Judge: the reference
+    does not look at hist); an identical one is the record TLC judges anyway."""
+    rng = ctx.rng
+    bases = [r for r in recs if r['base']]
+    muts = [r for r in recs if not r['base'] and r['outer'] == 'ok']
+    rng.shuffle(muts)
+    schema_of = {}
+
+    def disordered(r):
+        pk = r['pk']
+        if pk not in schema_of:
+            T = table[{'lp.legacy': 'lp', 'lp.nack': 'lp', 'data2017': 'data', 'interest2017': 'interest'}.get(pk, pk)]
+            schema_of[pk] = SCHEMA2017 if pk == 'interest2017' else T['schema']
+        return pk != 'name' and disorder(r['input'], schema_of[pk]) > 0
+    # the mutants in which some recognised element comes twice or before one it should follow go first (two thirds of
+    # the sample when there are that many), then the other mutants, then the unmutated packets
+    nmax = ctx.pick(1500, 20000)
+    dis = [r for r in muts if disordered(r)][:2 * nmax // 3]
+    ids = {r['id'] for r in dis}
+    muts = dis + [r for r in muts if r['id'] not in ids][:nmax - len(dis)]
+    todo = muts + bases
+    schemas, skey, items = [], {}, []
+    for r in todo:
+        pk = r['pk']
+        T = table[{'lp.legacy': 'lp', 'lp.nack': 'lp', 'data2017': 'data', 'interest2017': 'interest'}.get(pk, pk)]
+        if pk not in skey:
+            skey[pk] = len(schemas)
+            schemas.append(SCHEMA2017 if pk == 'interest2017' else T['schema'])
+        items.append((pk, bytes.fromhex(r['wire']), skey[pk]))
+    res = history_collect(history_start('c-adverse', 0, items, schemas, list(range(len(items)))))
+    nd = 0
+    for i, r in enumerate(todo):
+        got, out, ptr = res[i]
+        if json.loads(json.dumps([r['got'], r['out'], r['ptr']])) == [got, out, ptr]:
+            continue            # the identical observation is already a record (judged by TLC under the plain signature)
+        nd += 1
+        recs.append(dict(r, id=len(recs) + 1, hist='adverse', got=got, out=out, ptr=ptr, base=False))
+    ctx.note('C history: %d mutants (%d of them with a repeated / out-of-order element, these first), then the %d unmutated corpus '
+             'packets, decoded in that order by a fresh interpreter; %d answers differ from the canonical order and are judged as '
+             'records of their own' % (len(muts), len(dis), len(bases), nd))
+    return len(todo)
+
+
 # ------------------------------------------------------------------ run
 
 def judge(ctx, recs, name):
@@ -692,7 +904,8 @@ def run(ctx):
 def _run(ctx):
     ctx.rule = ('A/B: one TLC terminal state = one element sequence, each replayed on the real decoder. C: one record per '
                 'distinct (decoder, input bytes). non-trivial = sequences of length >= 3 or rejected by the reference; '
-                'mutants/random strings whose outer header is valid (the value level is reached)')
+                'mutants/random strings whose outer header is valid (the value level is reached). Histories: the decodings made '
+                'by fresh interpreters in other input orders are counted as executed traces, not as new non-trivial cases')
     ctx.assumptions = ['strict_tlv reader/writer (cross-checked: every emitted sequence is written, read back and compared)',
                        'projection of decoder results in harness/tlvkit.py and c07.decode', 'TLC and the CommunityModules Json module',
                        'sys.settrace line events as the step measure for the linear-time clause']
@@ -704,15 +917,20 @@ def _run(ctx):
         plan = ctx.pick([(4, 0), (2, 2)], [(5, 0), (4, 1), (3, 2)])
         seen = set()
         nseq = 0
+        cases = []
+        salt = ctx.rng.getrandbits(32)
         for maxlen, lvl in plan:
             table, seqs = run_machine(ctx, '%s_%d_%d' % (ctx.tier, maxlen, lvl), maxlen, lvl, allpk, ctx.pick(4, 16))
             if table is None:
                 continue
             if 'B' in ctx.stages:
-                nseq += replay_sequences(ctx, table, seqs, seen)
-        ctx.traces += nseq
-        ctx.evaluations += nseq
+                # sample for the histories: about 6000 (quick) / 60000 (thorough) sequences over the plan, chosen by a seeded
+                # hash of the bytes (TLC's print order is not deterministic, the sample is)
+                share = ctx.pick(6000, 60000) / len(plan) / max(1, len(seqs))
+                nseq += replay_sequences(ctx, table, seqs, seen, lambda c: zlib.crc32(c['wire'] + c['pk'].encode(), salt) < share * 2 ** 32, cases)
         ctx.note('A/B: %d element sequences enumerated by TLC and replayed on the real decoders' % nseq)
+        # the same sequences met in other orders by fresh interpreters (they run beside the TLC runs below)
+        hist = history_replay_start(ctx, cases) if 'B' in ctx.stages and cases else None
         if 'A' in ctx.stages:
             cfgc = kit.write_cfg('TlvModelC07_cov.cfg', constants={'MaxLen': 2, 'Lvl': 2, 'Pks': '{"interest","data","cert","lp"}'},
                                  invariants=INVS, raw=SUBST)
@@ -722,6 +940,10 @@ def _run(ctx):
                     raise tlc.MachineryError('vacuous: action %s never taken in TlvModelC07' % a)
             kit.check_witnesses('TlvModelC07', WITNESSES, {'MaxLen': 3, 'Lvl': 0, 'Pks': '{"interest","data","cert","lp"}'},
                                 raw=SUBST, env={'C07_TAB': 'c07-tab-w.json'})
+        if hist:
+            nseq += history_replay_collect(ctx, hist)
+        ctx.traces += nseq
+        ctx.evaluations += nseq
     if 'C' in ctx.stages:
         if table is None:
             table, _ = run_machine(ctx, 'tab', 1, 0, allpk, 2)
@@ -749,29 +971,36 @@ def _run(ctx):
                 if base and origin == 'hand':
                     hand_n += 1
                     hand_ok += got == 'accept'
-                recs.append({'id': len(recs) + 1, 'pk': pk, 'must': 'accept' if base and origin == 'hand' else '', 'outer': oc,
-                             'input': tree, 'got': got, 'out': out, 'ptr': ptr, 'wire': w.hex()})
+                recs.append({'id': len(recs) + 1, 'pk': pk, 'must': 'accept' if base and origin == 'hand' else '', 'outer': oc, 'hist': '',
+                             'input': tree, 'got': got, 'out': out, 'ptr': ptr, 'wire': w.hex(), 'base': base})
                 check_variant(ctx, len(recs), pk, w, T['schema'], got, out, {'kind': 'wire', 'pk': pk, 'wire': w.hex()})
                 stats[(pk, oc)] = stats.get((pk, oc), 0) + 1
                 if oc == 'ok':
                     ctx.nt(['C', pk, w.hex()])
         ctx.note('C: %d inputs (%s)' % (len(recs), ', '.join('%s/%s=%d' % (a, b, n) for (a, b), n in sorted(stats.items()))))
-        verdicts = judge(ctx, [{k: r[k] for k in ('id', 'pk', 'must', 'outer', 'input', 'got', 'out', 'ptr')} for r in recs], 'c07-judge-%s' % ctx.tier)
-        dead = [recs[rid - 1] for rid, tags in verdicts.items() if tags[0].startswith('CORPUS-DEAD/')]
+        nhist = history_corpus(ctx, recs, table)
+        verdicts = judge(ctx, [{k: r[k] for k in ('id', 'pk', 'must', 'hist', 'outer', 'input', 'got', 'out', 'ptr')} for r in recs], 'c07-judge-%s' % ctx.tier)
+        dead = [recs[rid - 1] for rid, tags in verdicts.items() if tags[0].rpartition('|')[2].startswith('CORPUS-DEAD/')]
         if dead:
             # independent of the tree under test: the harness' own corpus and reference disagree
             raise tlc.MachineryError('hand-written corpus packet %s %s is rejected by the reference' % (dead[0]['pk'], dead[0]['wire']))
         ctx.note('corpus sanity: %d hand-written packets, all accepted by the reference, %d accepted by the decoders' % (hand_n, hand_ok))
         for rid, tags in verdicts.items():
             r = recs[rid - 1]
-            want, rest = tags[0].split('/', 1)
+            h, _, tag = tags[0].rpartition('|')         # "history:<order>|" in front of the tag of a record decoded under a history
+            h = h + '/' if h else ''
+            want, rest = tag.split('/', 1)
             why, got = rest.rsplit('/', 1)
-            sig = 'C07/%s/accept/%s' % (FN[r['pk']], why) if why in ('fields-differ', 'pointers-differ') else \
-                'C07/%s/%s%s/%s' % (FN[r['pk']], want, ':' + why if why else '', got)
-            ctx.violation(sig, '%s(%s): reference %s%s, implementation %s' % (FN[r['pk']], r['wire'][:200], want, ' (%s)' % why if why else '', got),
-                          {'kind': 'wire', 'pk': r['pk'], 'wire': r['wire']})
-        ctx.traces += len(recs)
-        ctx.evaluations += len(recs)
+            sig = 'C07/%s/%saccept/%s' % (FN[r['pk']], h, why) if why in ('fields-differ', 'pointers-differ') else \
+                'C07/%s/%s%s%s/%s' % (FN[r['pk']], h, want, ':' + why if why else '', got)
+            rep = {'kind': 'wire', 'pk': r['pk'], 'wire': r['wire']}
+            if r['hist']:
+                rep['history'] = r['hist']
+            ctx.violation(sig, '%s(%s): reference %s%s, implementation %s%s' % (
+                FN[r['pk']], r['wire'][:200], want, ' (%s)' % why if why else '', got,
+                ' [decoded in a fresh interpreter, inputs in the order "%s"]' % r['hist'] if r['hist'] else ''), rep)
+        ctx.traces += len(recs) + nhist
+        ctx.evaluations += len(recs) + nhist
         ctx.sample({'kind': 'C-record', 'decoder': FN[recs[5]['pk']], 'wire': recs[5]['wire'][:120], 'outer': recs[5]['outer'], 'got': recs[5]['got']})
         linear_time(ctx)
         scaling_cpu(ctx)
@@ -791,6 +1020,13 @@ def replay(ctx, path):
     oc, tree = classify(pk, wire, T['schema'], kit.unlimbs(T['outer']))
     got, out, ptr = decode(pk, wire, T['schema'])
     print('%s(%s) -> %s; strict reader: outer=%s' % (FN[pk], obj['wire'][:200], got, oc))
-    v = judge(ctx, [{'id': 1, 'pk': pk, 'must': '', 'outer': oc, 'input': tree, 'got': got, 'out': out, 'ptr': ptr}], 'c07-replay')
+    if obj.get('history'):
+        print('(found with the inputs met in the order "%s" by a fresh interpreter; this replay decodes the one input alone)' % obj['history'])
+    v = judge(ctx, [{'id': 1, 'pk': pk, 'must': '', 'hist': '', 'outer': oc, 'input': tree, 'got': got, 'out': out, 'ptr': ptr}], 'c07-replay')
     print('judge:', v.get(1, 'conforms'))
     return 1 if v else 0
+
+
+if __name__ == '__main__':
+    if len(sys.argv) == 4 and sys.argv[1] == '--history-child':
+        history_child(sys.argv[2], sys.argv[3])
